@@ -10,7 +10,8 @@
    The code has NO error for an alias that leads only to itself (A = A, A = Variant[A], A = B with B = A): such a set
    resolves, and the theorems say so. *)
 From Coq Require Import List Arith Bool.
-From PcoreV Require Import Model.ResolveAlias Proofs.ResolveAliasProofs Proofs.ResolveAliasPrintProofs.
+From PcoreV Require Import Model.ResolveAlias Proofs.ResolveAliasProofs Proofs.ResolveAliasPrintProofs
+  Proofs.ResolveAliasPrintMono.
 Import ListNotations.
 
 (* ---- (1) the walk ends ---------------------------------------------------------------------------- *)
@@ -147,6 +148,15 @@ Proof.
 Qed.
 Print Assumptions C06_alias_assignability_never_raises.
 
+(* the depth bound of the assignability test never changes an answer: what the test answers (true / false / raises)
+   with some depth it answers with every larger one - beyond the bound the model says `not predicted`, never something
+   a deeper look would take back *)
+Theorem C06_alias_assignability_answer_stable :
+  forall (st : state) (g : list (aty * aty)) (a b : aty) (r : tri) (d f : nat),
+    asg f st g a b = r -> r <> TUnk -> asg (d + f) st g a b = r.
+Proof. exact asg_stable. Qed.
+Print Assumptions C06_alias_assignability_answer_stable.
+
 Theorem C06_alias_wording_resolved_never_raises :
   forall (st : state) (t : rty), st_closed st -> closed st t -> print_pred st t <> PRaises.
 Proof. exact print_pred_closed. Qed.
@@ -216,3 +226,10 @@ Proof. vm_compute. split; reflexivity. Qed.
 Example C06_alias_wording_raises_parent :
   resolve_all [(0, XCont2 KHash XCore (XName 1)); (1, XCont1 KArray (XObj (XName 0)))] = RErr EUnresolvedType.
 Proof. vm_compute. reflexivity. Qed.
+(* the assignability test itself: A (under resolution) asked whether it accepts Integer raises; Integer asked whether
+   it accepts A answers false (the nil resolved type); depth 1 is not enough for the first *)
+Example C06_alias_assignability_raises :
+  asg 2 [(0, (XCore, SResolving))] [] (AT (TAlias 0)) (AT TCore) = TRaise /\
+  asg 2 [(0, (XCore, SResolving))] [] (AT TCore) (AT (TAlias 0)) = TF /\
+  asg 1 [(0, (XCore, SResolving))] [] (AT (TAlias 0)) (AT TCore) = TUnk.
+Proof. vm_compute. repeat split; reflexivity. Qed.
